@@ -1,6 +1,7 @@
 package rules
 
 import (
+	"go/types"
 	"fmt"
 	"go/token"
 	"sort"
@@ -221,7 +222,9 @@ func c11(c *core.Ctx) {
 	if c.Rule("R6", "header decoding refuses what it cannot decode: the result of every base64 decode of a header value is used only on the nil-error edge of that very call", 2) {
 		n := 0
 		for _, fn := range p.LibFuncs("httpgrpc") {
-			for _, dc := range core.CallsIn(fn, func(_ *ssa.Call, ci core.CallInfo) bool { return ci.Pkg == "encoding/base64" && ci.Name == "DecodeString" }) {
+			for _, dc := range core.CallsIn(fn, func(_ *ssa.Call, ci core.CallInfo) bool {
+				return ci.Pkg == "encoding/base64" && ci.Name == "DecodeString"
+			}) {
 				n++
 				key := core.FuncName(fn) + ":decode-checked"
 				var val, errV ssa.Value
@@ -346,7 +349,9 @@ func c11(c *core.Ctx) {
 			if !strings.HasPrefix(fn.Name(), "init") {
 				continue
 			}
-			for _, call := range core.CallsIn(fn, func(_ *ssa.Call, ci core.CallInfo) bool { return ci.Is("google.golang.org/grpc/encoding.RegisterCodec") }) {
+			for _, call := range core.CallsIn(fn, func(_ *ssa.Call, ci core.CallInfo) bool {
+				return ci.Is("google.golang.org/grpc/encoding.RegisterCodec")
+			}) {
 				tn := core.NamedOf(core.Strip(call.Call.Args[0]).Type())
 				if nt := p.Named("httpgrpc", tn); nt != nil {
 					if nm := declaredMethod(p, nt, "Name"); nm != nil {
@@ -366,6 +371,135 @@ func c11(c *core.Ctx) {
 	// ---------------------------------------------------------------- R4
 	if c.Rule("R4", "a streaming reply always ends with exactly one trailer frame, built from the handler's error, except after a failed response write; nothing is written after it", 2) {
 		c11OneTrailer(c, hcs)
+		c.EndRule()
+	}
+
+	// ---------------------------------------------------------------- R7
+	if c.Rule("R7", "no request makes a handler call a nil function: a func value the HTTP code calls or defers and that is a result of a package function is non-nil on every return of that function, or the call is made only on the nil-error edge of that call and every return with a nil func carries a non-nil error", 2) {
+		n := 0
+		for _, fn := range p.LibFuncs("httpgrpc") {
+			core.Instrs(fn, func(in ssa.Instruction) {
+				cc := core.CallOf(in)
+				if cc == nil || cc.IsInvoke() {
+					return
+				}
+				if _, isFn := cc.Value.Type().Underlying().(*types.Signature); !isFn {
+					return
+				}
+				for _, o := range core.Origins(cc.Value) {
+					src, idx, ok := core.CallResult(o)
+					if !ok {
+						continue
+					}
+					callee := core.InfoOf(&src.Call).Static
+					if callee == nil || callee.Blocks == nil || !core.PkgIs(callee, "httpgrpc") {
+						continue
+					}
+					n++
+					key := fmt.Sprintf("%s:call-of-result(%s#%d)", core.FuncName(fn), core.FuncName(callee), idx)
+					errIdx := core.ErrResultIndex(callee.Signature)
+					nilRets, nilWithoutErr := 0, false
+					for _, r := range core.Returns(callee) {
+						if idx >= len(r.Results) {
+							continue
+						}
+						mayNil := false
+						for _, ro := range core.Origins(r.Results[idx]) {
+							if core.IsNilConst(ro) {
+								mayNil = true
+							}
+						}
+						if !mayNil {
+							continue
+						}
+						nilRets++
+						if errIdx < 0 || core.ClassifyErr(r.Results[errIdx], r) != core.ErrNonNil {
+							nilWithoutErr = true
+						}
+					}
+					if nilRets == 0 {
+						c.Ok(key, in.Pos(), "every return of %s gives a non-nil func", core.FuncName(callee))
+						continue
+					}
+					guarded := errIdx >= 0 && core.GuardedBy(in, func(f core.Fact) bool {
+						return f.Op == token.EQL && core.IsNilConst(f.Y) && core.OriginIs(f.X, func(v ssa.Value) bool {
+							cr, i, ok := core.CallResult(v)
+							return ok && cr == src && i == errIdx
+						})
+					})
+					c.Check(guarded && !nilWithoutErr, key, in.Pos(), "called only on the nil-error edge, and nil funcs are returned only together with an error",
+						fmt.Sprintf("%s can return a nil func (%d return(s)) and this call/defer is not confined to the nil-error edge of that call: a request that takes the error path panics the server goroutine", core.FuncName(callee), nilRets))
+				}
+			})
+		}
+		if n == 0 {
+			c.Fail("httpgrpc:func-results", token.NoPos, "ANCHOR-MISSING: no call of a func value returned by a package function (the per-request cancel) found")
+		}
+		c.EndRule()
+	}
+
+	// ---------------------------------------------------------------- R8
+	if c.Rule("R8", "a codec that reports success has coded: in every encoding.Codec implementation of the package, each possibly-nil return of Unmarshal passes a decode call that takes the input bytes and the destination message, and the bytes Marshal returns on success come from an encode call that takes the message", 2) {
+		n := 0
+		for _, nt := range codecTypes(p) {
+			if um := declaredMethod(p, nt, "Unmarshal"); um != nil && len(um.Params) == 3 {
+				n++
+				data, dst := derivedFrom(um.Params[1], false), derivedFrom(um.Params[2], false)
+				isDecode := func(in ssa.Instruction) bool {
+					call, ok := in.(*ssa.Call)
+					if !ok {
+						return false
+					}
+					hasData, hasDst := false, false
+					for _, a := range call.Call.Args {
+						if data[a] && isByteSlice(a.Type()) {
+							hasData = true
+						}
+						if dst[a] && !isByteSlice(a.Type()) {
+							hasDst = true
+						}
+					}
+					return hasData && hasDst
+				}
+				bad := false
+				for _, r := range core.Returns(um) {
+					for _, l := range core.ErrLeaves(r.Results[0], r) {
+						if l.Class != core.ErrNonNil && !core.MustPass(core.Entry(um), l.At, isDecode) {
+							bad = true
+						}
+					}
+				}
+				c.Check(!bad, core.FuncName(um)+":success-decodes", um.Pos(), "every possibly-nil return passes a decode of the input bytes into the destination", "a possibly-nil (success) return is reachable without decoding the bytes into the message (e.g. a shortcut for empty input): input that is not valid for this codec is accepted and the handler runs on an empty message")
+			}
+			if mm := declaredMethod(p, nt, "Marshal"); mm != nil && len(mm.Params) == 2 {
+				n++
+				src := derivedFrom(mm.Params[1], false)
+				bad := false
+				for _, r := range core.Returns(mm) {
+					if core.ClassifyErr(r.Results[1], r) == core.ErrNonNil {
+						continue
+					}
+					for _, o := range core.Origins(r.Results[0]) {
+						call, _, ok := core.CallResult(o)
+						fromMsg := false
+						if ok {
+							for _, a := range call.Call.Args {
+								if src[a] {
+									fromMsg = true
+								}
+							}
+						}
+						if !fromMsg {
+							bad = true
+						}
+					}
+				}
+				c.Check(!bad, core.FuncName(mm)+":success-encodes", mm.Pos(), "the bytes returned on success are the result of an encode call on the message", "bytes returned with a possibly-nil error do not come from an encode call that takes the message")
+			}
+		}
+		if n == 0 {
+			c.Fail("httpgrpc:codecs", token.NoPos, "ANCHOR-MISSING: no codec implementation (Marshal/Unmarshal/Name) in httpgrpc")
+		}
 		c.EndRule()
 	}
 
@@ -509,4 +643,41 @@ func c11OneTrailer(c *core.Ctx, hcs []handlerClosure) {
 			c.Check(!later, key+":nothing-after-trailer", call.Pos(), "nothing is written after the trailer frame", "something can be written to the reply after the trailer frame")
 		}
 	}
+}
+
+func isByteSlice(t types.Type) bool {
+	sl, ok := t.Underlying().(*types.Slice)
+	if !ok {
+		return false
+	}
+	b, ok := sl.Elem().Underlying().(*types.Basic)
+	return ok && (b.Kind() == types.Byte || b.Kind() == types.Uint8)
+}
+
+// codecTypes: library types of httpgrpc with Marshal, Unmarshal and Name methods.
+func codecTypes(p *core.Prog) []*types.Named {
+	var out []*types.Named
+	pk := p.Pkgs[core.ModulePath+"/httpgrpc"]
+	if pk == nil {
+		return nil
+	}
+	sc := pk.Types.Scope()
+	for _, n := range sc.Names() {
+		tn, ok := sc.Lookup(n).(*types.TypeName)
+		if !ok {
+			continue
+		}
+		nt, ok := tn.Type().(*types.Named)
+		if !ok || !p.IsLibFile(tn.Pos()) {
+			continue
+		}
+		has := map[string]bool{}
+		for i := 0; i < nt.NumMethods(); i++ {
+			has[nt.Method(i).Name()] = true
+		}
+		if has["Marshal"] && has["Unmarshal"] && has["Name"] {
+			out = append(out, nt)
+		}
+	}
+	return out
 }
